@@ -404,9 +404,9 @@ public:
         no_overflow,
         "Pointer arithmetic overflowed a pointer beyond sandbox memory");
 
-      auto target_wrap = tainted<const T, T_Sbx>::internal_factory(
-        reinterpret_cast<const T>(target));
-      return *target_wrap;
+      // The element is designated by its address alone: its first byte is
+      // known to be in the sandbox, which is all that p[n] and &p[n] require
+      return *reinterpret_cast<const T_OpSubscriptArrRet*>(target);
     } else {
       using T_Rhs_Unsigned = std::make_unsigned_t<decltype(raw_rhs)>;
       detail::dynamic_check(
@@ -441,12 +441,31 @@ public:
 private:
   using T_OpDerefRet = tainted_volatile<std::remove_pointer_t<T>, T_Sbx>;
 
+  // The object a tainted pointer is dereferenced to must lie entirely in the
+  // sandbox's memory. Otherwise the addresses of its elements or fields (which
+  // are handed out as tainted pointers) could lie outside the sandbox
+  inline void check_pointee_in_sandbox(const T_OpDerefRet* ptr) const
+  {
+    detail::dynamic_check(ptr != nullptr,
+                          "Dereferencing a null tainted pointer");
+    if constexpr (!std::is_void_v<std::remove_pointer_t<T>> &&
+                  !std::is_function_v<std::remove_pointer_t<T>>) {
+      auto last_byte =
+        reinterpret_cast<const char*>(ptr) + sizeof(T_OpDerefRet) - 1;
+      detail::dynamic_check(
+        rlbox_sandbox<T_Sbx>::is_in_same_sandbox(ptr, last_byte),
+        "Dereferencing a tainted pointer to an object that extends beyond "
+        "sandbox memory");
+    }
+  }
+
 public:
   inline T_OpDerefRet& operator*() const
   {
     static_assert(std::is_pointer_v<T>, "Operator * only allowed on pointers");
     auto ret_ptr_const =
       reinterpret_cast<const T_OpDerefRet*>(impl().get_raw_value());
+    check_pointee_in_sandbox(ret_ptr_const);
     // Safe - If T_OpDerefRet is not a const ptr, this is trivially safe
     //        If T_OpDerefRet is a const ptr, then the const is captured
     //        inside the wrapper
@@ -462,7 +481,10 @@ public:
   {
     static_assert(std::is_pointer_v<T>,
                   "Operator -> only supported for pointer types");
-    return reinterpret_cast<const T_OpDerefRet*>(impl().get_raw_value());
+    auto ret_ptr =
+      reinterpret_cast<const T_OpDerefRet*>(impl().get_raw_value());
+    check_pointee_in_sandbox(ret_ptr);
+    return ret_ptr;
   }
 
   inline T_OpDerefRet* operator->()
